@@ -131,8 +131,16 @@ pub fn log_u64(tag: &str, v: u64) {
 pub fn set_clock_s(secs: i64) {
     with(|s| s.clock_ns = secs.saturating_mul(1_000_000_000));
 }
+/// Simulated time that has *passed* (holds, slow lookups — not clock steps or skew) since the
+/// process started: added to what the monotonic clocks return to code under test, so that
+/// `Instant`-based measurements see it too.
+static MONO_OFFSET_NS: std::sync::atomic::AtomicI64 = std::sync::atomic::AtomicI64::new(0);
+
 pub fn advance_clock_s(secs: i64) {
     with(|s| s.clock_ns = s.clock_ns.saturating_add(secs.saturating_mul(1_000_000_000)));
+    if secs > 0 {
+        MONO_OFFSET_NS.fetch_add(secs.saturating_mul(1_000_000_000).min(i64::MAX / 4), Ordering::SeqCst);
+    }
 }
 pub fn clock_s() -> i64 {
     with(|s| s.clock_ns / 1_000_000_000).unwrap_or(0)
@@ -362,7 +370,17 @@ pub unsafe extern "C" fn clock_gettime(clk: libc::clockid_t, ts: *mut libc::time
             return 0;
         }
     }
-    libc::syscall(libc::SYS_clock_gettime, clk, ts) as libc::c_int
+    let r = libc::syscall(libc::SYS_clock_gettime, clk, ts) as libc::c_int;
+    // monotonic clocks, for code under test only: real value plus the simulated time that passed
+    if r == 0 && !ts.is_null() && matches!(clk, libc::CLOCK_MONOTONIC | libc::CLOCK_MONOTONIC_RAW | libc::CLOCK_MONOTONIC_COARSE | libc::CLOCK_BOOTTIME) && NODE.try_with(|n| n.get()).unwrap_or(-1) >= 0 && crate::rt::in_job() {
+        let off = MONO_OFFSET_NS.load(Ordering::SeqCst);
+        if off > 0 {
+            let total = ((*ts).tv_sec as i128) * 1_000_000_000 + (*ts).tv_nsec as i128 + off as i128;
+            (*ts).tv_sec = (total / 1_000_000_000) as libc::time_t;
+            (*ts).tv_nsec = (total % 1_000_000_000) as libc::c_long;
+        }
+    }
+    r
 }
 
 // ---- self-test --------------------------------------------------------------------------
